@@ -518,6 +518,22 @@ func HarnessC01Float() {
 	default:
 		src, want = "-a < b", rB(-a < b)
 	}
+	if vChoice("printed", 2) == 1 {
+		// the printed form of float results from a boundary set (formatting symbolic floats is outside the engine)
+		cases := []struct {
+			src  string
+			f    float64
+			want string
+		}{
+			{"-f", 0, "-0.0"}, {"f * -1.5", 0, "-0.0"}, {"f + f", 0, "0.0"}, {"0.0 / f", -4, "-0.0"}, {"f + 0.5", 1.5, "2.0"},
+			{"f - 5.5", 2.5, "-3.0"}, {"f / 2.0", 0.5, "0.25"}, {"f * 2.0", -0.75, "-1.5"}, {"-f + -f", 0, "-0.0"}, {"f", 1e15, "1000000000000000.0"},
+		}
+		c := cases[vChoice("case", len(cases))]
+		out, err := EvaluateString("{{ "+c.src+" }}", map[string]any{"f": c.f})
+		vCover("evaluated")
+		vAssert(err == nil && out == c.want, "float-result-is-printed-with-its-sign-and-decimals")
+		return
+	}
 	obj, parsed := evalLast("{{ "+src+" }}", data)
 	vCover("evaluated")
 	checkAgainst(obj, parsed, want, "float")
